@@ -149,8 +149,9 @@ func (k *check) transparencyJobs() (jobs, post []func()) {
 			job := struct {
 				Scratch string
 				Pkgs    []string
+				All     bool
 				Out     string
-			}{Scratch: c.Scratch, Out: filepath.Join(d, "out.json")}
+			}{Scratch: c.Scratch, All: !c.Quick(), Out: filepath.Join(d, "out.json")}
 			for i, p := range std {
 				if i%stdShards == sh {
 					job.Pkgs = append(job.Pkgs, p)
@@ -182,6 +183,9 @@ func (k *check) transparencyJobs() (jobs, post []func()) {
 
 	// (c) end to end
 	e2ePkgs := clean
+	if len(e2ePkgs) > 60 {
+		e2ePkgs = e2ePkgs[:60]
+	}
 	if c.Quick() {
 		// a smaller program with every clean feature (stride 3 over the feature list)
 		e2ePkgs = nil
@@ -460,6 +464,19 @@ func (k *check) writeE2E(pkgs []corpusPkg) *e2eProgram {
 	return p
 }
 
+// e2eFailCached: a session that takes packages from the cache fails although the NoCache
+// build of the same sources succeeded – that is a violation, not a generator mishap.
+func (k *check) e2eFailCached(prefix, step string, r, none buildRes, files map[string]string) bool {
+	if r.ok {
+		return false
+	}
+	if none.ok {
+		k.violate(prefix+"/"+step+"-build-fails-with-cache", "the program builds without cache but the session "+step+", which restores packages from the cache, fails:\n"+tail(r.out, 1500), files)
+		return true
+	}
+	return k.e2eFail(step, r)
+}
+
 func (k *check) e2eFail(step string, r buildRes) bool {
 	if !r.ok {
 		k.c.Inconclusive("e2e-program-does-not-build")
@@ -538,7 +555,7 @@ func (k *check) e2eTags(pkgs []corpusPkg) {
 	if k.e2eFail("none(tags)", none) {
 		return
 	}
-	if k.e2eFail("tag-none", tnone) || k.e2eFail("tag-cold", tcold) {
+	if k.e2eFail("tag-none", tnone) || k.e2eFailCached(prefix, "tag-cold", tcold, tnone, files) {
 		return
 	}
 	k.eval(2)
@@ -556,14 +573,14 @@ func (k *check) e2eTags(pkgs []corpusPkg) {
 	go func() { defer wg.Done(); twarm = k.build(prog, home, "on", "tag-warm", "c20tag", p.env...) }()
 	warm2 = k.build(prog, home, "on", "warm2", "", p.env...)
 	wg.Wait()
-	if !k.e2eFail("tag-warm", twarm) {
+	if !k.e2eFailCached(prefix, "tag-warm", twarm, tnone, files) {
 		k.eval(1)
 		k.expectWarm(prefix+"/tagged", twarm, tcold.stats.StoreOK, files)
 		if twarm.js != tnone.js {
 			k.violate(prefix+"/other-tags-warm-js", "JavaScript of the warm tagged build differs from the tagged NoCache build: "+jsDiff(tnone.js, twarm.js), files)
 		}
 	}
-	if !k.e2eFail("warm2", warm2) {
+	if !k.e2eFailCached(prefix, "warm2", warm2, none, files) {
 		k.eval(1)
 		k.expectWarm(prefix+"/after-tagged", warm2, cold.stats.StoreOK, files)
 		if warm2.js != none.js {
@@ -599,7 +616,7 @@ func (k *check) e2eStaleness(pkgs []corpusPkg) {
 	go func() { defer wg.Done(); mnone = k.build(prog, home, "none", "mod-none", "", p.env...) }()
 	mcold := k.build(prog, home, "on", "mod-cold", "", p.env...)
 	wg.Wait()
-	if k.e2eFail("mod-none", mnone) || k.e2eFail("mod-cold", mcold) {
+	if k.e2eFail("mod-none", mnone) || k.e2eFailCached(prefix, "mod-cold", mcold, mnone, files2) {
 		return
 	}
 	k.eval(3)
@@ -619,7 +636,7 @@ func (k *check) e2eStaleness(pkgs []corpusPkg) {
 		c.Inconclusive("e2e-edit-invalidated-everything")
 	}
 	mwarm := k.build(prog, home, "on", "mod-warm", "", p.env...)
-	if !k.e2eFail("mod-warm", mwarm) {
+	if !k.e2eFailCached(prefix, "mod-warm", mwarm, mnone, files2) {
 		k.eval(1)
 		if mwarm.js != mnone.js {
 			k.violate(prefix+"/stale-warm-js", "the session after the re-store differs from the NoCache build: "+jsDiff(mnone.js, mwarm.js), files2)
